@@ -81,6 +81,10 @@ func genVectors(r *vrt.Rng, args []*mpclgen.Type, n int) ([][]mpclgen.Val, bool)
 				var x *big.Int
 				if i%4 == 3 {
 					x = r.Big(l.Bits)
+				} else if i%4 == 1 {
+					// jointly extreme operands: long carry/borrow chains and
+					// overflow need both operands at an edge at once
+					x = extremeBig(r, l.Bits)
 				} else {
 					x = r.BoundaryBig(l.Bits)
 				}
@@ -92,6 +96,31 @@ func genVectors(r *vrt.Rng, args []*mpclgen.Type, n int) ([][]mpclgen.Val, bool)
 		out = append(out, vals)
 	}
 	return out, false
+}
+
+// extremeBig draws from {0, 1, 2, max, max-1, 2^(w-1), 2^(w-1)-1, 2^(w-1)+1}.
+func extremeBig(r *vrt.Rng, bits int) *big.Int {
+	one := big.NewInt(1)
+	mod := new(big.Int).Lsh(one, uint(bits))
+	half := new(big.Int).Rsh(mod, 1)
+	var v *big.Int
+	switch r.Intn(9) {
+	case 0:
+		v = new(big.Int)
+	case 1, 2:
+		v = big.NewInt(1)
+	case 3:
+		v = big.NewInt(2)
+	case 4, 5:
+		v = new(big.Int).Sub(mod, one)
+	case 6:
+		v = new(big.Int).Sub(mod, big.NewInt(2))
+	case 7:
+		v = new(big.Int).Sub(half, one)
+	default:
+		v = new(big.Int).Add(half, big.NewInt(int64(r.Intn(2))))
+	}
+	return v.And(v, new(big.Int).Sub(mod, one))
 }
 
 func flattenArgs(vals []mpclgen.Val) *big.Int {
